@@ -252,6 +252,62 @@ Section Run.
     fold_left recv_frame frames {| r_expect := expect; r_closed := false; r_out := [] |}.
 End Run.
 
+(** * Several senders sharing one session key
+
+    [shell.Handler.writeEncrypted] is called by the stdout pump, the stderr
+    pump and the exit notifier of one shell stream.  [SessionKey.Encrypt] takes
+    the next counter; the frame then has to reach the single frame writer.
+    The receiver ([SessionKey.Decrypt]) refuses a counter below the one it
+    expects.  A sender's step is either the whole critical section (seal and
+    write under [writeMu]) or, if the lock covered the seal only, two steps
+    that other senders can interleave with. *)
+
+Inductive sstep :=
+| Both (s : N)      (* sender s seals and writes in one critical section *)
+| SealOnly (s : N)  (* sender s takes a counter ... *)
+| WriteOnly (s : N). (* ... and later hands its sealed frame to the writer *)
+
+Record shstate := { sh_ctr : N; sh_pending : list (N * N) (* sender, counter *); sh_wire : list N }.
+
+Fixpoint take_pending (s : N) (l : list (N * N)) : option (N * list (N * N)) :=
+  match l with
+  | [] => None
+  | (s', c) :: r =>
+      if s' =? s then Some (c, r)
+      else match take_pending s r with
+           | Some (c', r') => Some (c', (s', c) :: r')
+           | None => None
+           end
+  end.
+
+Definition sh_step (st : shstate) (x : sstep) : shstate :=
+  match x with
+  | Both _ => {| sh_ctr := sh_ctr st + 1; sh_pending := sh_pending st; sh_wire := sh_wire st ++ [sh_ctr st] |}
+  | SealOnly s => {| sh_ctr := sh_ctr st + 1; sh_pending := sh_pending st ++ [(s, sh_ctr st)]; sh_wire := sh_wire st |}
+  | WriteOnly s =>
+      match take_pending s (sh_pending st) with
+      | Some (c, r) => {| sh_ctr := sh_ctr st; sh_pending := r; sh_wire := sh_wire st ++ [c] |}
+      | None => st
+      end
+  end.
+
+Definition sh_run (steps : list sstep) : shstate :=
+  fold_left sh_step steps {| sh_ctr := 0; sh_pending := []; sh_wire := [] |}.
+
+(** the receiver: number of frames accepted, in arrival order *)
+Fixpoint accept_all (expect : N) (wire : list N) : bool :=
+  match wire with
+  | [] => true
+  | c :: r => (expect <=? c) && accept_all (c + 1) r
+  end.
+
+Fixpoint only_both (steps : list sstep) : bool :=
+  match steps with
+  | [] => true
+  | Both _ :: r => only_both r
+  | _ => false
+  end.
+
 (** * The shell client adapter
 
     [health.ShellStreamAdapter]: decrypted shell output is handed over through
